@@ -387,23 +387,136 @@ func ruleNHGReferences(c *Ctx) {
 	type loopOf struct {
 		root types.Object
 		path string
-		val  types.Object
+		val  types.Object // the member (range value) — its Index is the member id
+		key  types.Object // the member id itself, when the ranged collection is keyed by it
 		rs   *ast.RangeStmt
 	}
+	// member sets: a local map filled, unconditionally and only, with the member
+	// ids of a loop over new.NextHop / original.NextHop  (m[nh.GetIndex()] = true);
+	// ranging over it visits every member id exactly once
+	type memberSet struct {
+		root types.Object
+		ok   bool
+	}
+	sets := map[types.Object]*memberSet{}
+	isMemberRange := func(rs *ast.RangeStmt) (types.Object, bool) {
+		ro, rp := selectorPath(info, resolveLocal(info, fi.Decl, rs.X))
+		if (ro == nw || ro == orig) && strings.Join(rp, ".") == "NextHop" {
+			return ro, true
+		}
+		return nil, false
+	}
+	inspectNoFuncLit(fi.Decl.Body, func(n ast.Node) bool {
+		rs, ok := n.(*ast.RangeStmt)
+		if !ok {
+			return true
+		}
+		root, isM := isMemberRange(rs)
+		if !isM {
+			return true
+		}
+		val := objOfIdent(info, rs.Value)
+		_, rangedIsMap := info.TypeOf(rs.X).Underlying().(*types.Map)
+		key := types.Object(nil)
+		if rangedIsMap {
+			key = objOfIdent(info, rs.Key)
+		}
+		for _, st := range rs.Body.List {
+			as, ok := st.(*ast.AssignStmt)
+			if !ok || as.Tok != token.ASSIGN || len(as.Lhs) != 1 {
+				continue
+			}
+			ie, ok := ast.Unparen(as.Lhs[0]).(*ast.IndexExpr)
+			if !ok {
+				continue
+			}
+			m, _ := objOfIdent(info, ie.X).(*types.Var)
+			if m == nil || m.IsField() {
+				continue
+			}
+			if _, isMap := m.Type().Underlying().(*types.Map); !isMap {
+				continue
+			}
+			io, ip := selectorPath(info, resolveLocal(info, fi.Decl, ie.Index))
+			isID := (val != nil && io == val && strings.Join(ip, ".") == "Index") || (key != nil && io == key && len(ip) == 0)
+			ms := sets[m]
+			if ms == nil {
+				ms = &memberSet{root: root, ok: true}
+				sets[m] = ms
+			}
+			if !isID || ms.root != root {
+				ms.ok = false
+			}
+		}
+		return true
+	})
+	// any other write to a candidate member set disqualifies it
+	inspectNoFuncLit(fi.Decl.Body, func(n ast.Node) bool {
+		switch x := n.(type) {
+		case *ast.AssignStmt:
+			for _, l := range x.Lhs {
+				if ie, ok := ast.Unparen(l).(*ast.IndexExpr); ok {
+					if ms := sets[objOfIdent(info, ie.X)]; ms != nil {
+						// must be one of the unconditional fills found above: its parent is a member loop body
+						encl := false
+						inspectNoFuncLit(fi.Decl.Body, func(q ast.Node) bool {
+							if rs, ok := q.(*ast.RangeStmt); ok {
+								if _, isM := isMemberRange(rs); isM {
+									for _, st := range rs.Body.List {
+										if st == ast.Stmt(x) {
+											encl = true
+										}
+									}
+								}
+							}
+							return true
+						})
+						if !encl {
+							ms.ok = false
+						}
+					}
+				} else if ms := sets[objOfIdent(info, l)]; ms != nil && x.Tok == token.ASSIGN {
+					ms.ok = false
+				}
+			}
+		case *ast.CallExpr:
+			if id, ok := ast.Unparen(x.Fun).(*ast.Ident); ok && id.Name == "delete" && len(x.Args) == 2 {
+				if ms := sets[objOfIdent(info, x.Args[0])]; ms != nil {
+					ms.ok = false
+				}
+			}
+		}
+		return true
+	})
 	callLoop := map[*ast.CallExpr]loopOf{}
 	memberLoops := map[ast.Node]bool{}
+	seenGuards := map[ast.Expr]bool{}      // `if seen[id] { continue }` of a first-occurrence loop
+	dupFree := map[*ast.RangeStmt]string{} // counter loop → why its domain names every member once ("" = it may not)
 	inspectNoFuncLit(fi.Decl.Body, func(n ast.Node) bool {
 		rs, ok := n.(*ast.RangeStmt)
 		if !ok {
 			return true
 		}
 		ro, rp := selectorPath(info, resolveLocal(info, fi.Decl, rs.X))
-		if (ro == nw || ro == orig) && strings.Join(rp, ".") == "NextHop" {
+		lo := loopOf{root: ro, path: strings.Join(rp, "."), val: objOfIdent(info, rs.Value), rs: rs}
+		_, rangedIsMap := info.TypeOf(rs.X).Underlying().(*types.Map)
+		if (ro == nw || ro == orig) && lo.path == "NextHop" {
 			memberLoops[rs] = true
+			if rangedIsMap {
+				lo.key = objOfIdent(info, rs.Key)
+				dupFree[rs] = "the installed group's member map (keys are unique)"
+			} else if g := seenIdiom(info, fi.Decl, rs, lo.val); g != nil {
+				dupFree[rs] = "the wire list, first occurrence of each id only (seen-set)"
+				seenGuards[g.Cond] = true
+			}
+		} else if ms := sets[objOfIdent(info, rs.X)]; ms != nil && ms.ok {
+			memberLoops[rs] = true
+			lo.root, lo.path, lo.val, lo.key = ms.root, "NextHop", nil, objOfIdent(info, rs.Key)
+			dupFree[rs] = "a set of the member ids (map keys are unique)"
 		}
 		for _, call := range callsIn(rs.Body) {
 			if _, seen := callLoop[call]; !seen {
-				callLoop[call] = loopOf{ro, strings.Join(rp, "."), objOfIdent(info, rs.Value), rs}
+				callLoop[call] = lo
 			}
 		}
 		return true
@@ -419,7 +532,7 @@ func ruleNHGReferences(c *Ctx) {
 			onHolder := se != nil && objOfIdent(info, se.X) == holder
 			lp, inLoop := callLoop[call]
 			ao, ap := selectorPath(info, resolveLocal(info, fi.Decl, call.Args[0]))
-			argIsMember := inLoop && lp.val != nil && ao == lp.val && strings.Join(ap, ".") == "Index"
+			argIsMember := inLoop && ((lp.val != nil && ao == lp.val && strings.Join(ap, ".") == "Index") || (lp.key != nil && ao == lp.key && len(ap) == 0))
 			kind := "stray:" + f.Name() + "(" + types.ExprString(call.Args[0]) + ")"
 			if onHolder && argIsMember && lp.path == "NextHop" {
 				switch {
@@ -446,6 +559,15 @@ func ruleNHGReferences(c *Ctx) {
 		if p.End == "panic" {
 			continue
 		}
+		repeated := false
+		for _, cs := range p.Conds {
+			if cs.Expr != nil && seenGuards[cs.Expr] && cs.Taken {
+				repeated = true // a later occurrence of a member already counted: nothing is due
+			}
+		}
+		if repeated {
+			continue
+		}
 		var evs []string
 		for _, e := range p.Events {
 			evs = append(evs, e.Kind)
@@ -469,6 +591,84 @@ func ruleNHGReferences(c *Ctx) {
 	}
 	c.check(bad == "" && len(memberLoops) >= 2, rule, fi.Name, "inc every new member, dec every replaced member", c.P.pos(fi.Decl.Pos()),
 		fmt.Sprintf("%d paths: for m in new.NextHop: inc(m.Index); if original != nil: for m in original.NextHop: dec(m.Index)", len(paths)), bad)
+	// the domain of every counter loop names each member once: the installed group is a map keyed by
+	// member id, so a later delete / replace / flush releases each member exactly once — a loop over the
+	// wire list (a slice, which may repeat an id) counts a repeated member twice and the counter never
+	// returns to zero.
+	seenLoops := map[*ast.RangeStmt]bool{}
+	for call, lp := range callLoop {
+		f, ok := calleeObj(info, call).(*types.Func)
+		if !ok || (f.Name() != "incNHRefCount" && f.Name() != "decNHRefCount") || !memberLoops[lp.rs] || seenLoops[lp.rs] {
+			continue
+		}
+		seenLoops[lp.rs] = true
+	}
+	var loops []*ast.RangeStmt
+	for rs := range seenLoops {
+		loops = append(loops, rs)
+	}
+	sort.Slice(loops, func(i, j int) bool { return loops[i].Pos() < loops[j].Pos() })
+	for i, rs := range loops {
+		c.Sites++
+		c.check(dupFree[rs] != "", rule, fi.Name, fmt.Sprintf("counter loop #%d visits every member once", i+1), c.P.pos(rs.Pos()), dupFree[rs],
+			"the counter loop ranges over "+types.ExprString(rs.X)+", a list that may name the same next-hop twice, while the installed group holds each member once and every release (delete, replace, flush) iterates the installed map: a group listing one next-hop twice leaves its counter above zero for ever and the next-hop can never be deleted")
+	}
+}
+
+// seenIdiom: the loop body starts with `if seen[id] { continue }` (or the comma-ok form) and records
+// `seen[id] = true` at its top level, where id is the member id of the ranged value.
+func seenIdiom(info *types.Info, fd *ast.FuncDecl, rs *ast.RangeStmt, val types.Object) *ast.IfStmt {
+	if val == nil {
+		return nil
+	}
+	var guard *ast.IfStmt
+	isID := func(e ast.Expr) bool {
+		o, p := selectorPath(info, resolveLocal(info, fd, e))
+		return o == val && strings.Join(p, ".") == "Index"
+	}
+	var set types.Object
+	guarded, recorded := false, false
+	for _, st := range rs.Body.List {
+		switch x := st.(type) {
+		case *ast.IfStmt:
+			if guarded || x.Else != nil || len(x.Body.List) != 1 {
+				continue
+			}
+			if b, ok := x.Body.List[0].(*ast.BranchStmt); !ok || b.Tok != token.CONTINUE {
+				continue
+			}
+			var ie *ast.IndexExpr
+			if x.Init == nil {
+				ie, _ = ast.Unparen(x.Cond).(*ast.IndexExpr)
+			} else if as, ok := x.Init.(*ast.AssignStmt); ok && len(as.Lhs) == 2 && len(as.Rhs) == 1 && objOfIdent(info, x.Cond) != nil && objOfIdent(info, x.Cond) == objOfIdent(info, as.Lhs[1]) {
+				ie, _ = ast.Unparen(as.Rhs[0]).(*ast.IndexExpr)
+			}
+			if ie != nil && isID(ie.Index) {
+				if m, ok := objOfIdent(info, ie.X).(*types.Var); ok && !m.IsField() {
+					if _, isMap := m.Type().Underlying().(*types.Map); isMap {
+						set, guarded, guard = m, true, x
+					}
+				}
+			}
+		case *ast.AssignStmt:
+			if guarded && x.Tok == token.ASSIGN && len(x.Lhs) == 1 {
+				if ie, ok := ast.Unparen(x.Lhs[0]).(*ast.IndexExpr); ok && objOfIdent(info, ie.X) == set && isID(ie.Index) {
+					recorded = true
+				}
+			}
+		case *ast.ExprStmt:
+			// a counter call before the id is recorded as seen defeats the guard only if it precedes the guard
+			if !guarded {
+				for range callsIn(x) {
+					return nil
+				}
+			}
+		}
+	}
+	if guarded && recorded {
+		return guard
+	}
+	return nil
 }
 
 // R3.2
